@@ -47,6 +47,7 @@ package parser
 //@ ensures PInv(p) && SInv() && ErrOK(result1) && avail(p) <= old(avail(p))
 //@ ensures result1 == nil ==> !strmDone && p.peekCount == 0
 //@ ensures [wellformed-nodes] result1 == nil ==> ArgsOK(result0.Arguments)
+//@ ensures [verbatim] result1 == nil ==> result0.Name.Name == ident.Value && result0.NodeType == ast.NodeFunction
 //@ loop 0: invariant PInv(p) && SInv() && p.peekCount == 0 && TokOK(next) && next.Type == strmLastT && avail(p) <= old(avail(p))
 //@ loop 0: invariant ArgsOK(args)
 //@ loop 0: decreases avail(p)
@@ -58,6 +59,7 @@ package parser
 //@ ensures PInv(p) && SInv() && ErrOK(result1) && avail(p) <= old(avail(p))
 //@ ensures result1 == nil ==> Ready(p)
 //@ ensures [wellformed-nodes] result1 == nil ==> result0.Value != nil && (typeIs(result0.Value, ast.Function) ==> ArgsOK(unbox(result0.Value, ast.Function).Arguments))
+//@ ensures [verbatim] result1 == nil ==> result0.Name.Name == ident.Value && result0.NodeType == ast.NodeAssign
 
 //@ func (*Parser).parseTaskDependencies
 //@ requires PInv(p) && SInv() && Ready(p)
@@ -110,3 +112,13 @@ package parser
 //@ trusted starts the lexer goroutine; initial state of the parser-side stream ghosts
 //@ modifies strmLeft, strmDone, strmExp, strmLastT, strmInput
 //@ ensures result != nil && fresh(result) && PInv(result) && SInv() && !strmDone && result.peekCount == 0 && strmInput == input
+
+// ---- verbatim copying of token values into nodes (C06: "the same names, the same strings verbatim") ----
+//@ func (*Parser).parseIdent
+//@ ensures result.Name == ident.Value && result.NodeType == ast.NodeIdent
+
+//@ func (*Parser).parseString
+//@ ensures result.Text == stripQuotes(s.Value) && result.NodeType == ast.NodeString
+
+//@ func (*Parser).parseCommand
+//@ ensures result.Command == command.Value && result.NodeType == ast.NodeCommand
